@@ -133,10 +133,15 @@ pub fn and(a: &Table, b: &Table) -> Table {
     a.iter().zip(b.iter()).map(|(x, y)| x & y).collect()
 }
 
-/// HT space over n atoms.
+/// HT space over n atoms. Atoms in `fixed` (input atoms) have the same value in H and T and
+/// are represented by a single variable; every other atom i has a here-variable and a
+/// there-variable.
 pub struct HtSpace {
     pub n: usize,
     pub sp: Space,
+    pub hvar: Vec<usize>,
+    pub tvar: Vec<usize>,
+    pub fixed: u64,
     /// indices with h subset-of t
     pub valid: Table,
     /// indices with h == t (total interpretations)
@@ -145,25 +150,52 @@ pub struct HtSpace {
 
 impl HtSpace {
     pub fn new(n: usize) -> HtSpace {
-        let sp = Space::new(2 * n);
+        HtSpace::with_fixed(n, 0)
+    }
+    pub fn with_fixed(n: usize, fixed: u64) -> HtSpace {
+        // layout: variable i (< n) is the here-variable of atom i; there-variables of the
+        // non-fixed atoms follow; a fixed atom's there-variable is its here-variable.
+        // With fixed == 0 the index is h | (t << n).
+        let mut hvar = vec![];
+        let mut tvar = vec![];
+        let mut next = n;
+        for i in 0..n {
+            hvar.push(i);
+            if (fixed >> i) & 1 == 1 {
+                tvar.push(i);
+            } else {
+                tvar.push(next);
+                next += 1;
+            }
+        }
+        let sp = Space::new(next);
         let mut valid = sp.full.clone();
         let mut total = sp.full.clone();
         for i in 0..n {
-            // h_i -> t_i
-            let mut imp = sp.not(sp.var(i));
-            or_into(&mut imp, sp.var(n + i));
+            if hvar[i] == tvar[i] {
+                continue;
+            }
+            let mut imp = sp.not(sp.var(hvar[i]));
+            or_into(&mut imp, sp.var(tvar[i]));
             and_into(&mut valid, &imp);
-            // h_i <-> t_i
-            let x = xor(sp.var(i), sp.var(n + i));
+            let x = xor(sp.var(hvar[i]), sp.var(tvar[i]));
             let nx = sp.not(&x);
             and_into(&mut total, &nx);
         }
-        HtSpace {
-            n,
-            sp,
-            valid,
-            total,
+        HtSpace { n, sp, hvar, tvar, fixed, valid, total }
+    }
+    /// index of the pair (h, t) (h and t must agree on the fixed atoms)
+    pub fn index(&self, h: u64, t: u64) -> u64 {
+        let mut idx = 0u64;
+        for i in 0..self.n {
+            if (h >> i) & 1 == 1 {
+                idx |= 1 << self.hvar[i];
+            }
+            if (t >> i) & 1 == 1 {
+                idx |= 1 << self.tvar[i];
+            }
         }
+        idx
     }
     /// (here, there) tables of `p`.
     pub fn ht(&self, p: &P) -> (Table, Table) {
@@ -171,7 +203,7 @@ impl HtSpace {
         match p {
             P::T => (sp.full.clone(), sp.full.clone()),
             P::F => (sp.zero(), sp.zero()),
-            P::Atom(i) => (sp.var(*i).clone(), sp.var(self.n + *i).clone()),
+            P::Atom(i) => (sp.var(self.hvar[*i]).clone(), sp.var(self.tvar[*i]).clone()),
             P::Not(a) => {
                 let (_, t) = self.ht(a);
                 let x = sp.not(&t);
@@ -215,9 +247,19 @@ impl HtSpace {
         and_into(&mut h, &self.valid);
         h
     }
+    /// (h, t) of an index (only meaningful for fixed == 0 layouts or via hvar/tvar)
     pub fn split(&self, idx: u64) -> (u64, u64) {
-        let mask = (1u64 << self.n) - 1;
-        (idx & mask, idx >> self.n)
+        let mut h = 0u64;
+        let mut t = 0u64;
+        for i in 0..self.n {
+            if (idx >> self.hvar[i]) & 1 == 1 {
+                h |= 1 << i;
+            }
+            if (idx >> self.tvar[i]) & 1 == 1 {
+                t |= 1 << i;
+            }
+        }
+        (h, t)
     }
     pub fn nvalid(&self) -> u64 {
         self.sp.count(&self.valid)
